@@ -35,6 +35,8 @@ def run(ops):
     for op in ops:
         if op[0] == "eval":
             els[op[1]](op[2])
+        elif op[0] == "plot":
+            els[op[1]].plot(return_df=True)       # another way of reading: fills the memo through Element.plot
         else:
             kind = defs[op[1]][0]
             defs[op[1]] = (kind, op[2])
@@ -69,6 +71,29 @@ def run_stochastic(seed, order):
         if not math.isclose(a(t1) + b(t1), 100.0, rel_tol=1e-9, abs_tol=1e-9):
             return "a+b = %r at t=%r: the two stocks consumed different values of the same flow" % (a(t1) + b(t1), t1)
     return None
+
+def run_stochastic_constant(seed):
+    """a CONSTANT whose function is stochastic (a scenario constant given as an expression, installed the way scenarios do it):
+    within one run it has one value per time, the value every dependent consumed"""
+    import numpy as np
+    from BPTK_Py.sdsimulation import SdSimulation
+    np.random.seed(seed)
+    m = Model(starttime=0.0, stoptime=4.0, dt=0.5)
+    d = m.constant("demand"); d.equation = 3.0
+    o = m.converter("orders"); o.equation = d * 2.0
+    s = m.stock("s"); s.initial_value = 0.0; fl = m.flow("fl"); fl.equation = d * 1.0; s.equation = fl
+    sim = SdSimulation(model=m, name="x")
+    sim.change_equation(name="demand", value="float(np.random.poisson(3.0)) + float(np.random.random())")
+    ts = [i * 0.5 for i in range(9)]
+    for t in ts:
+        if o(t) != 2.0 * d(t):
+            return "orders(%r) = %r was computed from demand = %r, but demand(%r) is reported as %r" % (t, o(t), o(t) / 2.0, t, d(t))
+    for t0, t1 in zip(ts, ts[1:]):
+        if not math.isclose(s(t1) - s(t0), 0.5 * d(t0), rel_tol=1e-9, abs_tol=1e-12):
+            return "the stock consumed demand = %r at t=%r, demand(%r) is reported as %r" % ((s(t1) - s(t0)) / 0.5, t0, t0, d(t0))
+    if [d(t) for t in ts] != [d(t) for t in ts]:
+        return "repeating the evaluation of the constant gives other values"
+    return None
 '''
 exec(PRELUDE)
 
@@ -79,7 +104,10 @@ ALTS = {'k': [1.0, 5.0, -2.0], 'g': ['k*2.0', 'k+T', '4.0*k'], 'h': ['g-s', 'g*2
 def gen(rnd):
     ops = []
     for _ in range(rnd.randint(1, 8)):
-        if rnd.random() < 0.55:
+        r_ = rnd.random()
+        if r_ < 0.12:
+            ops.append(('plot', rnd.choice(NAMES)))
+        elif r_ < 0.55:
             ops.append(('eval', rnd.choice(NAMES), rnd.choice([0.0, 0.5, 1.0, 3.0, 6.0])))
         else:
             n = rnd.choice(NAMES)
@@ -95,6 +123,17 @@ def main():
     failures = []
     while time.time() < t_end:
         n += 1
+        if n % 25 == 1:
+            sd_ = rnd.randint(0, 10 ** 6)
+            try:
+                bad = run_stochastic_constant(sd_)
+            except Exception as e:
+                bad = None
+            if bad:
+                body = PRELUDE + '\nbad = run_stochastic_constant(%r)\nprint("FAIL: " + bad if bad else "PASS")\nsys.exit(1 if bad else 0)\n' % (sd_,)
+                failures.append(dict(what=bad, script=write_replay('C08', 'stochastic_constant', body), known=None))
+                break
+            continue
         if n % 10 == 0:
             order = rnd.sample(['a', 'b', 'f'], 3)
             sd_ = rnd.randint(0, 10 ** 6)
